@@ -84,6 +84,13 @@ def _maybe_lazy(array, layout, base_ndim=2):
         + [tuple(c) for c in layout["chunks"]]
         + [(n,) for n in array.shape[-base_ndim:]]
     )
+    bc = layout.get("base_chunks")
+    if bc:
+        # base axes split into two chunks (a measurement loaded from disk may be chunked anyhow)
+        base = []
+        for n, split in zip(array.shape[-base_ndim:], bc):
+            base.append((n // 2, n - n // 2) if split and n >= 2 else (n,))
+        ch = ch[:-base_ndim] + tuple(base)
     return da.from_array(array, chunks=ch)
 
 
@@ -192,6 +199,8 @@ def gradient_case(draw):
     layout = draw(scan_layout())
     layout["scan_shape"] = []  # images: only the optional leading ensemble axis
     layout["chunks"] = [] if layout["lazy"] else None
+    if layout["lazy"]:
+        layout["base_chunks"] = draw(st.sampled_from([[False, False], [True, False], [False, True], [True, True]]))
     return {
         "gpts": [n0, n1],
         "sampling": [round(draw(gen.floats(0.05, 0.5)), 3), round(draw(gen.floats(0.05, 0.5)), 3)],
@@ -249,6 +258,7 @@ def check_integrate_gradient(case, ctx):
     rng_f = float(f.max() - f.min())
     ctx.nontrivial(rng_f > 1e-3)
     ctx.label("lazy", layout["lazy"])
+    ctx.label("base_chunked", bool(layout.get("base_chunks")) and any(layout["base_chunks"]))
     ctx.label("ensemble", bool(layout["extra"]))
     ctx.label("anisotropic", case["sampling"][0] != case["sampling"][1])
     ctx.label("odd_side", any(n % 2 for n in case["gpts"]))
